@@ -120,7 +120,7 @@ class BasicContiguousVector<cntgs::Options<Option...>, Parameter...>
     template <bool IsNoneSpecial = IS_ALL_PLAIN>
     constexpr BasicContiguousVector(size_type max_element_count, const allocator_type& allocator,
                                     std::enable_if_t<IsNoneSpecial>* = nullptr)
-        : BasicContiguousVector(max_element_count, size_type{}, FixedSizes{}, allocator)
+        : BasicContiguousVector(max_element_count, size_type{}, FixedSizes{}, allocator, 0)
     {
     }
 
